@@ -10,8 +10,11 @@ C11 (ILP clause, BATCHING mode): for EVERY feasible point `σ` of the model that
 * `child_not_before_parent_var`: `start c ≥ start p` even for an unplaced parent variable;
 * `self_parent_never_placed`: a BatchTask that holds a parent of one of its own members is never
   placed (a parent and its child are never returned in one batch);
-* `placed_child_parents_counted_partial`: a placed child BatchTask has `all_parents_placed = 1`,
-  i.e. `Σ_p (#parents in p) · Σ x_p` = number of distinct parents of its members;
+* `placed_child_parents_counted`, `child_placed_parents_placed_partial`,
+  `decision_parents_placed_partial`: a placed child BatchTask with at least one parent variable
+  has `all_parents_placed = 1`, hence (exchange of the double sum + at most one placed BatchTask
+  per task) every graph parent of every member in a RUNNING or placed BatchTask — also on the
+  returned decisions; without a parent variable nothing holds (C11-ILPB-2);
 * `decisions_ordered`: the same on what `schedule()` returns (`decodeB`): a task returned placed
   through BatchTask `c` starts at or after `start + runtime + 1` of every returned-placed
   graph parent whose BatchTask is a parent variable of `c`.
@@ -22,6 +25,7 @@ FALSE of the code (counterexamples below):
   variables; its child (here even its grandchild next to the grandparent) is placed freely.
 -/
 import ErdosVerif.Props.C10_IlpBatch
+import ErdosVerif.Lemmas.IlpBatchParents
 namespace ErdosVerif.C11_IlpBatch
 open ErdosVerif.Mip ErdosVerif.IlpBatch
 open ErdosVerif.Ilp (Var compatible qty nsum)
@@ -65,10 +69,9 @@ theorem self_parent_never_placed {I : BInst} {σ : Var → Int} (h : sat σ (gen
     have hr : (0 : Int) ≤ I.runtime c := by simp [BInst.runtime]
     omega
 
-/-- Full statement (not proved): a placed child BatchTask has every parent of every member in a
-placed (or RUNNING) BatchTask.  Proved: the counting row it satisfies; missing: the exchange of
-the double sum `Σ_p Σ_{u ∈ parents, u ∈ p}` that turns the count into "each parent once". -/
-theorem placed_child_parents_counted_partial {I : BInst} {σ : Var → Int} (h : sat σ (genB I)) {c w : Nat}
+/-- The counting row a placed child BatchTask satisfies: `all_parents_placed = 1` and
+`Σ_p (#parents in p) · Σ x_p` = number of distinct graph parents of its members. -/
+theorem placed_child_parents_counted {I : BInst} {σ : Var → Int} (h : sat σ (genB I)) {c w : Nat}
     (hc : c < I.nB) (hne : I.parentVars c ≠ []) (hpl : I.chosen σ c = some w) :
     σ (.allParents c) = 1 ∧ (I.parentExpr c).eval σ = ((I.parentTasks c).length : Int) := by
   have hcn := mem_nonRunning.mpr ⟨hc, chosen_nonRunning hpl⟩
@@ -77,6 +80,41 @@ theorem placed_child_parents_counted_partial {I : BInst} {σ : Var → Int} (h :
   rcases rb with h0 | h1'
   · have := r0 h0; omega
   · exact ⟨h1', r1 h1'⟩
+
+/-- Full statement (FALSE without the hypothesis `hne`, see `unbatched_parent_counterexample`):
+a placed child BatchTask has every graph parent of every member in a BatchTask that is RUNNING
+or placed.  Proved for every child BatchTask with at least one parent variable (then also the
+parents that joined no BatchTask are counted, and block the child). -/
+theorem child_placed_parents_placed_partial {I : BInst} {σ : Var → Int} (h : sat σ (genB I))
+    (hws : I.wfShared = true) (hwu : I.wfUniq = true) {c w m : Nat} (hc : c < I.nB)
+    (hne : I.parentVars c ≠ []) (hpl : I.chosen σ c = some w) (hm : m ∈ I.members c)
+    {u : String} (hu : u ∈ I.base.parentsOf (I.task m).uniq) :
+    ∃ p, p < I.nB ∧ I.hasMember p u = true ∧ (I.bRunning p = true ∨ (I.chosen σ p).isSome = true) := by
+  apply placed_child_all_parents_placed h hws hwu hc hne hpl
+  unfold BInst.parentTasks
+  simp only [List.mem_eraseDups]
+  exact List.mem_flatMap.mpr ⟨m, hm, hu⟩
+
+/-- The same on the returned decisions: if task `d.task` is returned placed through a BatchTask
+with a parent variable, every graph parent `t` that is a task of the call is a member of a RUNNING
+BatchTask or is itself returned placed. -/
+theorem decision_parents_placed_partial {I : BInst} {σ : Var → Int} (h : sat σ (genB I))
+    (hws : I.wfShared = true) (hwu : I.wfUniq = true) {d : BDecision} (hd : d ∈ decodeB I σ)
+    {c w : Nat} {time : Int} (hp : d.placed = some (c, w, time)) (hne : I.parentVars c ≠ [])
+    {t : Nat} (ht : t < I.nT) (hu : (I.task t).uniq ∈ I.base.parentsOf (I.task d.task).uniq) :
+    (∃ p, p < I.nB ∧ I.bRunning p = true ∧ t ∈ I.members p) ∨
+    (∃ d' ∈ decodeB I σ, d'.task = t ∧ d'.placed.isSome = true) := by
+  obtain ⟨hcn, hm, hcc, _⟩ := placed_decision_spec hd hp
+  obtain ⟨p, hpb, hmem, hor⟩ :=
+    child_placed_parents_placed_partial h hws hwu (mem_nonRunning.mp hcn).1 hne hcc hm hu
+  have htp : t ∈ I.members p := (hasMember_iff hwu hpb ht).mp hmem
+  rcases hor with hr | hs
+  · exact Or.inl ⟨p, hpb, hr, htp⟩
+  · right
+    cases hch : I.chosen σ p with
+    | none => rw [hch] at hs; cases hs
+    | some w' =>
+      exact ⟨_, IlpBatch.member_gets_batch_placement h hws hpb ht htp hch, rfl, rfl⟩
 
 /-- **What `schedule()` returns is ordered**: two returned decisions, both placed, the BatchTask of
 the parent task being a parent variable of the BatchTask of the child task. -/
